@@ -1375,8 +1375,12 @@ impl<'a, SE: extensions::ShellExtensions> WordExpander<'a, SE> {
                     }
                 }
 
-                // Make sure the offset is within the bounds of the item.
-                let expanded_offset = min(expanded_offset, expanded_parameter_len);
+                // Make sure the offset is within the bounds of the item; an offset past the
+                // end yields nothing, whatever the length says.
+                if expanded_offset > expanded_parameter_len {
+                    return Ok(expanded_parameter
+                        .polymorphic_subslice(expanded_parameter_len as usize, expanded_parameter_len as usize));
+                }
 
                 let end_offset = if let Some(length) = length {
                     let expanded_length = length.eval(self.shell, self.params, false).await?;
